@@ -18,6 +18,10 @@ def _load():
     return _B
 
 
+def _pub(r):
+    return r[0] if isinstance(r, list) else r
+
+
 def is_new(path):
     """a function of one of the repository's crates that the inventory does not know"""
     b = _load()
@@ -31,7 +35,7 @@ def was_private(suffix):
     """did the inventory contain a NON-public function whose path ends with `suffix` (and no public one)?"""
     b = _load()
     hits = [r for fns in b.values() for p, r in fns.items() if p == suffix or p.endswith("::" + suffix) or p.endswith(suffix)]
-    return bool(hits) and not any(hits)
+    return bool(hits) and not any(_pub(h) for h in hits)
 
 
 def lookup(name):
@@ -41,4 +45,251 @@ def lookup(name):
             (name.startswith("::") and p.endswith(name))]
     if not hits:
         return None
-    return any(hits)
+    return any(_pub(h) for h in hits)
+
+
+# ---------------------------------------------------------------------------------------------------------------------
+# moved / renamed functions
+#
+# A function of the inventory that has disappeared while a function the inventory does not know has appeared with the same
+# signature and the same body (up to the names of locals and the paths of the repository functions it calls) was MOVED or
+# RENAMED (a free helper that became an associated function, a method that changed module).  The loader gives it back its
+# inventory path, in every crate's facts, so the rules keep seeing the program they were written against.
+
+def crates():
+    return set(_load())
+
+
+def _local(path, cr):
+    p = path.lstrip("<&")
+    return p.split("::", 1)[0] in cr
+
+
+def fingerprint(d, cr=None):
+    """structural digest of a function record of the fact files, or None when it has no body"""
+    import hashlib
+    if not d.get("hir"):
+        return None
+    cr = cr or crates()
+    names = {}
+
+    def nm(n):
+        return names.setdefault(n, "v%d" % len(names))
+
+    def walk(x):
+        if isinstance(x, dict):
+            out = []
+            k = x.get("k")
+            for key in sorted(x):
+                v = x[key]
+                if key in ("l", "e", "f", "span", "body_span"):
+                    continue
+                if key in ("fn", "full", "resolved") and isinstance(v, str) and k in ("call", "mcall"):
+                    if _local(v, cr):
+                        v = "\u00b7"
+                    out.append((key, v))
+                    continue
+                if k == "mcall" and key in ("name", "recv", "recv_ty", "args"):
+                    continue
+                if k == "call" and key == "args":
+                    continue
+                if key == "name" and k in ("bind",):
+                    out.append((key, nm(v)))
+                    continue
+                if key == "local" and isinstance(v, str):
+                    out.append((key, nm(v)))
+                    continue
+                out.append((key, walk(v)))
+            if k == "mcall":
+                out.append(("args", walk([x.get("recv")] + list(x.get("args") or []))))
+                out = [("k", "call") if o == ("k", "mcall") else o for o in out]
+            elif k == "call":
+                out.append(("args", walk(x.get("args") or [])))
+            return tuple(sorted(out, key=lambda o: o[0]))
+        if isinstance(x, list):
+            return tuple(walk(y) for y in x)
+        return x
+
+    hir = d["hir"]
+    body = (walk(hir.get("params")), walk(hir.get("value")))
+    sig = (tuple(p.get("ty") for p in d.get("params", [])), d.get("ret"), d.get("abi"), len(d.get("generics") or []))
+    return hashlib.sha256(repr((sig, body)).encode()).hexdigest()[:24]
+
+
+def _tokens(path):
+    import re
+    return set(t for t in re.split(r"[^A-Za-z0-9]+|_", path.rsplit("::", 1)[-1]) if t)
+
+
+def moved(current):
+    """current: {crate: [function record, ...]} of the tree under analysis.  Returns {new path: inventory path}."""
+    b = _load()
+    cr = set(b)
+    out = {}
+    for c, recs in current.items():
+        inv = b.get(c)
+        if not inv:
+            continue
+        have = {r["path"] for r in recs}
+        gone = {}
+        for p, r in inv.items():
+            if p not in have and isinstance(r, list) and r[1] and "{closure" not in p:
+                gone.setdefault(r[1], []).append(p)
+        if not gone:
+            continue
+        fresh = {}
+        for r in recs:
+            if r["path"] not in inv and "{closure" not in r["path"] and r.get("kind") in ("Fn", "AssocFn"):
+                fp = fingerprint(r, cr)
+                if fp in gone:
+                    fresh.setdefault(fp, []).append(r["path"])
+        for fp, news in fresh.items():
+            olds = gone[fp]
+            if len(news) == 1 and len(olds) == 1:
+                out[news[0]] = olds[0]
+                continue
+            # several functions with one body (trivial accessors): pair them by the words of their names, else leave them
+            left = list(olds)
+            for n in sorted(news):
+                best = sorted(left, key=lambda o: -len(_tokens(o) & _tokens(n)))
+                if best and len(_tokens(best[0]) & _tokens(n)) > 0 and \
+                        (len(best) == 1 or len(_tokens(best[1]) & _tokens(n)) < len(_tokens(best[0]) & _tokens(n))):
+                    out[n] = best[0]
+                    left.remove(best[0])
+    return out
+
+
+_ITEMS = os.path.join(os.path.dirname(os.path.abspath(__file__)), "data", "baseline_items.json")
+_I = None
+
+
+def _items():
+    global _I
+    if _I is None:
+        try:
+            with open(_ITEMS) as fh:
+                _I = json.load(fh)
+        except OSError:
+            _I = {"adts": {}, "consts": {}}
+    return _I
+
+
+def _strip_local(ty, cr):
+    """a type string with the module part of every repository path removed (`temporal_rs::a::b::X<..>` -> `X<..>`)"""
+    import re
+    return re.sub(r"\b(?:%s)(?:::[A-Za-z_][A-Za-z0-9_]*)+" % "|".join(sorted(cr)), lambda m: m.group(0).rsplit("::", 1)[-1], ty or "")
+
+
+def adt_fingerprint(a, cr=None):
+    import hashlib
+    cr = cr or crates()
+    body = (a.get("kind"), tuple((v.get("name"), v.get("discr"), tuple((f.get("name"), _strip_local(f.get("ty"), cr), f.get("pub"))
+                                                                    for f in v.get("fields") or []))
+                             for v in a.get("variants") or []))
+    return hashlib.sha256(repr(body).encode()).hexdigest()[:24]
+
+
+def const_fingerprint(c, cr=None):
+    import hashlib
+    cr = cr or crates()
+    return hashlib.sha256(repr((_strip_local(c.get("ty"), cr), json.dumps(c.get("val"), sort_keys=True))).encode()).hexdigest()[:24]
+
+
+def moved_items(docs, kind):
+    """types (kind 'adts') / constants (kind 'consts') of the inventory that disappeared while an item of the same name and the
+    same definition appeared under another path: {new path: inventory path}"""
+    inv_all = _items().get(kind, {})
+    cr = crates()
+    fpf = adt_fingerprint if kind == "adts" else const_fingerprint
+    out = {}
+    for c, d in docs.items():
+        inv = inv_all.get(c)
+        if not inv:
+            continue
+        have = {a["path"]: a for a in d.get(kind, [])}
+        gone = [p for p in inv if p not in have]
+        if not gone:
+            continue
+        fresh = [p for p in have if p not in inv]
+        for g in gone:
+            cands = [q for q in fresh if q.rsplit("::", 1)[-1] == g.rsplit("::", 1)[-1] and fpf(have[q], cr) == inv[g]]
+            if len(cands) == 1 and cands[0] not in out:
+                out[cands[0]] = g
+    return out
+
+
+def _rewrite(docs, fix):
+    def walk(x):
+        if isinstance(x, dict):
+            for k, v in x.items():
+                if isinstance(v, str):
+                    if "::" in v:
+                        x[k] = fix(v)
+                else:
+                    walk(v)
+        elif isinstance(x, list):
+            for i, v in enumerate(x):
+                if isinstance(v, str):
+                    if "::" in v:
+                        x[i] = fix(v)
+                else:
+                    walk(v)
+    for d in docs.values():
+        walk(d)
+
+
+def canonicalise(docs):
+    """docs: {crate: parsed fact file}.  Gives moved types, constants and functions their inventory paths back, everywhere.
+    Returns the map {path in this tree: inventory path}."""
+    import re
+    total = {}
+    # 1. types: every path that goes through the type (its methods, its trait impls, type strings) moves with it
+    mp = moved_items(docs, "adts")
+    if mp:
+        rx = re.compile("(?:%s)(?![A-Za-z0-9_])" % "|".join(re.escape(k) for k in sorted(mp, key=len, reverse=True)))
+        _rewrite(docs, lambda s: rx.sub(lambda m: mp[m.group(0)], s))
+        total.update(mp)
+    # 2. constants and statics
+    mc = moved_items(docs, "consts")
+    if mc:
+        _rewrite(docs, lambda s: mc.get(s, s))
+        total.update(mc)
+    # 3. functions
+    total.update(_canonicalise_fns(docs))
+    return total
+
+
+def _canonicalise_fns(docs):
+    """docs: {crate: parsed fact file}.  Renames moved functions back to their inventory paths, everywhere.  Returns the map."""
+    mp = moved({c: d["fns"] for c, d in docs.items()})
+    if not mp:
+        return mp
+    pre = [(n + "::{", o + "::{") for n, o in mp.items()]
+
+    def fix(s):
+        if s in mp:
+            return mp[s]
+        for a, bb in pre:
+            if s.startswith(a):
+                return bb + s[len(a):]
+        return s
+
+    def walk(x):
+        if isinstance(x, dict):
+            for k, v in x.items():
+                if isinstance(v, str):
+                    if "::" in v:
+                        x[k] = fix(v)
+                else:
+                    walk(v)
+        elif isinstance(x, list):
+            for i, v in enumerate(x):
+                if isinstance(v, str):
+                    if "::" in v:
+                        x[i] = fix(v)
+                else:
+                    walk(v)
+
+    for d in docs.values():
+        walk(d)
+    return mp
